@@ -4,7 +4,7 @@
         list of labels paired with a list of columns; growth appends or is rejected as a whole.
    M_*  implementation models (static-frame 0.8.8, /repo/static_frame/core):
         IndexGO            index.py:1148-1155 (__contains__), 1404-1417 (_update_array_cache),
-                           1422-1458 (append / extend)
+                           1435-1479 (append / extend)
         TypeBlocks         type_blocks.py:3157-3209 (append / extend), 307-316 (__copy__)
         FrameGO            frame.py:7023-7108 (__setitem__, extend_items, extend)
         sharing            frame.py:2454-2541 (Frame.__init__ own_* / STATIC check),
@@ -120,7 +120,9 @@ Definition M_contains_state (s : igo) (v : L) : igo :=
   | Some _ => s
   end.
 
-(* _IndexGOMixin.append (index.py:1422-1450) *)
+(* _IndexGOMixin.append (index.py:1435-1471, after fix feb832d: on a loc_is_iloc index the AutoMap is built
+   BEFORE any state is changed, and its NonUniqueError -- a label equal to an existing position that
+   __contains__ did not recognise, e.g. 1.0 -- is turned into the KeyError of a duplicate) *)
 Definition M_append (s : igo) (v : L) : igo * outcome :=
   let s1 := M_contains_state s v in
   if M_contains s v then (s1, Err "KeyError") else
@@ -132,8 +134,7 @@ Definition M_append (s : igo) (v : L) : igo * outcome :=
       let lm' := g_lm s1 ++ [v] in
       if keep then (mk_igo lm' None (g_cnt s1 + 1) true (g_arr s1) (g_npos s1), Ok tt)
       else if nodupb lm' then (mk_igo lm' (Some lm') (g_cnt s1 + 1) true (g_arr s1) (g_npos s1), Ok tt)
-      else (* AutoMap(self._labels_mutable) raises NonUniqueError AFTER the list has grown *)
-        (mk_igo lm' None (g_cnt s1) (g_recache s1) (g_arr s1) (g_npos s1), Err "ValueError")
+      else (s1, Err "KeyError")
   end.
 
 (* _IndexGOMixin.extend (index.py:1452-1458): a loop of append, no validation before the loop *)
@@ -206,28 +207,20 @@ Definition igo_wfb (s : igo) : bool :=
   (g_recache s || (list_eqb leq (g_arr s) (g_lm s) && (g_npos s =? g_cnt s))).
 
 (* guard: the inputs on which the implementation meets the specification.
-   - loc_is_iloc index: a label that is not an int but equals an existing position (1.0) is outside;
-   - extend: either every label is new, or the first one already fails (nothing appended before). *)
-Definition dom_append (s : igo) (v : L) : bool :=
-  match g_map s, as_pos v with
-  | None, None => negb (mem v (g_lm s))
-  | _, _ => true
-  end.
-
+   extend: either every label is new, or the first one already fails (nothing appended before). *)
 Fixpoint dom_extend (s : igo) (vs : list L) (first : bool) : bool :=
   match vs with
   | [] => true
-  | v :: r => dom_append s v &&
-              (let '(s1, o) := M_append s v in
-               match o with
-               | Ok _ => dom_extend s1 r false
-               | Err _ => first
-               end)
+  | v :: r => let '(s1, o) := M_append s v in
+              match o with
+              | Ok _ => dom_extend s1 r false
+              | Err _ => first
+              end
   end.
 
 Definition dom_iop (s : igo) (op : iop) : bool :=
   match op with
-  | IAppend v => dom_append s v
+  | IAppend v => true
   | IExtend vs => dom_extend s vs true
   | IRead => true
   end.
@@ -542,7 +535,7 @@ Definition value_wfb (v : gvalue) : bool :=
 Fixpoint dom_items (f : fgo) (pairs : list (L * gvalue)) (fill : V) (fdt : dtype) (first : bool) : bool :=
   match pairs with
   | [] => true
-  | (k, v) :: r => dom_append (f_cols f) k && value_wfb v &&
+  | (k, v) :: r => value_wfb v &&
                    (let '(f1, o) := M_set f k v fill fdt in
                     match o with
                     | Ok _ => dom_items f1 r fill fdt false
@@ -552,9 +545,9 @@ Fixpoint dom_items (f : fgo) (pairs : list (L * gvalue)) (fill : V) (fdt : dtype
 
 Definition dom_gop (f : fgo) (op : gop) : bool :=
   match op with
-  | OSet k v _ _ => dom_append (f_cols f) k && value_wfb v
+  | OSet k v _ _ => value_wfb v
   | OItems pairs fill fdt => dom_items f pairs fill fdt true
-  | OExtSeries name sidx _ vals _ _ => dom_append (f_cols f) name && (zlen vals =? zlen sidx)
+  | OExtSeries name sidx _ vals _ _ => zlen vals =? zlen sidx
   | OExtFrame fidx fcols blocks _ _ => extframe_wfb fidx fcols blocks && dom_extend (f_cols f) fcols true
   | OExtOther => true
   | ORead => true
